@@ -826,3 +826,74 @@ theorem S_list : (es : List CE) → fullAll es = true → SAll2 es
 end
 
 end MV
+
+namespace MV
+
+/-! ### the `if` clause of a builder: the printer joins the conditions with `and` -/
+
+theorem precCompCond_eq : precCompCond = 5 := by rfl
+theorem and_level : pyLevel .And = 4 := by rfl
+
+/-- `" and "`-joined conditions after the first one -/
+def condTail : List CE → List PTok
+  | [] => []
+  | c :: cs => [.bop .And] ++ operand c precCompCond ++ condTail cs
+
+/-- the printed `if` clause: `operand(c, PREC_NOT)` for every condition, joined with `and` -/
+def condChain : List CE → List PTok
+  | [] => []
+  | c :: cs => operand c precCompCond ++ condTail cs
+
+/-- the conjunction the clause denotes: each condition is one operand -/
+def andFold (acc : PyAst) : List CE → PyAst
+  | [] => acc
+  | c :: cs => andFold (.bin .And acc (embed c)) cs
+
+theorem stop_condTail (cs : List CE) (rest : List PTok) (j : Nat) (hj : 4 < j) (h : Stop j rest) :
+    Stop j (condTail cs ++ rest) := by
+  cases cs with
+  | nil => simpa [condTail] using h
+  | cons c cs => simp only [condTail, List.append_assoc, List.cons_append, List.nil_append]; exact stop_bop .And _ j (by rw [and_level]; omega)
+
+theorem cond_operand (c : CE) (hS : SProp2 c) (R : List PTok) (h6 : Stop 6 R) (h14 : Stop 14 R) :
+    Ev (fun m => parse m 5 (operand c precCompCond ++ R)) (embed c, R) := by
+  rw [precCompCond_eq]
+  exact operand_S2 c hS 5 5 (by omega) (Nat.le_refl _) (by omega) R _ h6
+    (fun hb => ⟨fun _ => h6, fun _ => h14, fun h2 => by omega⟩)
+    (Ev_exit (fun t _ => contLevel_ne t 5 (by omega)))
+
+theorem condTail_S : (cs : List CE) → SAll2 cs → ∀ (acc : PyAst) (rest : List PTok) (out : PyAst × List PTok),
+    Stop 4 rest → Ev (fun m => cont m 4 (andFold acc cs) rest) out →
+    Ev (fun m => cont m 4 acc (condTail cs ++ rest)) out
+  | [], _, acc, rest, out, _, hc => by simpa [condTail, andFold] using hc
+  | c :: cs, hS, acc, rest, out, hstop, hc => by
+    have hR6 : Stop 6 (condTail cs ++ rest) := stop_condTail cs rest 6 (by omega) (hstop.mono (by omega))
+    have hR14 : Stop 14 (condTail cs ++ rest) := stop_condTail cs rest 14 (by omega) (hstop.mono (by omega))
+    have h1 := cond_operand c hS.1 (condTail cs ++ rest) hR6 hR14
+    have ih := condTail_S cs hS.2 (.bin .And acc (embed c)) rest out hstop (by simpa [andFold] using hc)
+    have hform : condTail (c :: cs) ++ rest = .bop .And :: (operand c precCompCond ++ (condTail cs ++ rest)) := by
+      simp [condTail]
+    rw [hform]
+    exact Ev_left (k := 4) (by decide) and_level h1 ih
+
+/-- The `if` clause of a builder parses, at the grammar level of a comprehension condition
+    (`disjunction`), to the conjunction of the conditions — every condition intact as one operand. -/
+theorem condChain_S (c : CE) (cs : List CE) (hS : SAll2 (c :: cs)) (rest : List PTok) (hstop : Stop 3 rest) :
+    Ev (fun m => parse m 3 (condChain (c :: cs) ++ rest)) (andFold (embed c) cs, rest) := by
+  have hform : condChain (c :: cs) ++ rest = operand c precCompCond ++ (condTail cs ++ rest) := by
+    simp [condChain]
+  rw [hform]
+  have hR6 : Stop 6 (condTail cs ++ rest) := stop_condTail cs rest 6 (by omega) (hstop.mono (by omega))
+  have hR14 : Stop 14 (condTail cs ++ rest) := stop_condTail cs rest 14 (by omega) (hstop.mono (by omega))
+  have h5 := cond_operand c hS.1 (condTail cs ++ rest) hR6 hR14
+  have hchain : Ev (fun m => cont m 4 (embed c) (condTail cs ++ rest)) (andFold (embed c) cs, rest) :=
+    condTail_S cs hS.2 (embed c) rest _ (hstop.mono (by omega)) (Ev_exit_of_stop (hstop.mono (by omega)))
+  have hhead4 : NoPrefixAt 4 (operand c precCompCond ++ (condTail cs ++ rest)) := by
+    rw [precCompCond_eq]; exact operand_head2 c 5 4 (by omega) (by omega) _
+  have hhead3 : NoPrefixAt 3 (operand c precCompCond ++ (condTail cs ++ rest)) := by
+    rw [precCompCond_eq]; exact operand_head2 c 5 3 (by omega) (by omega) _
+  have h4 : Ev (fun m => parse m 4 (operand c precCompCond ++ (condTail cs ++ rest))) (andFold (embed c) cs, rest) :=
+    Ev_down (by omega) hhead4 h5 hchain
+  exact Ev_down (by omega) hhead3 h4 (Ev_exit_of_stop hstop)
+
+end MV
